@@ -31,6 +31,7 @@ const Ports Leaf::ports = {
     rDummy(dummy),
     {"cross:", rDoc("change callback that cross-broadcasts a sibling"), NULL,
         rBOIL_BEGIN rCrossBroadcast(loc, pf) rBOIL_END},
+    rString(lstr, 48, "long string"),
 };
 #undef rObject
 
@@ -57,6 +58,7 @@ const ClonePorts Cloned::ports(Leaf::ports, {
     {"pf::f",      Leaf::ports["pf"]->cb},
     {"po::i:c:S",  Leaf::ports["po"]->cb},
     {"str::s",     Leaf::ports["str"]->cb},
+    {"lstr::s",    Leaf::ports["lstr"]->cb},
     {"act:",       Leaf::ports["act"]->cb},
     {"*",          default_reply()},
 });
